@@ -75,7 +75,7 @@ pub fn multi_fault_strategy(max_attempts: usize) -> impl Strategy<Value = FaultC
 		f.nth = nth;
 		f
 	});
-	(proptest::collection::vec(fault, 2..=5), any::<bool>(), any::<bool>(), 1..=max_attempts, any::<bool>()).prop_map(|(faults, previous_pair, kp_reuse, attempts, nonce_on_get)| FaultCase { faults, previous_pair, kp_reuse, attempts, nonce_on_get, hook_faults: vec![], file_hooks: false, retry_after: None, processing: false })
+	(proptest::collection::vec(fault, 2..=5), any::<bool>(), any::<bool>(), 1..=max_attempts, any::<bool>()).prop_map(|(faults, previous_pair, kp_reuse, attempts, nonce_on_get)| FaultCase { faults, previous_pair, kp_reuse, attempts, nonce_on_get, hook_faults: vec![], file_hooks: false, retry_after: None, processing: false, mixed_hooks: false })
 }
 
 pub fn single_cases(tier: Tier) -> Vec<FaultCase> {
@@ -94,7 +94,7 @@ pub fn single_cases(tier: Tier) -> Vec<FaultCase> {
 			Tier::Thorough => vec![(true, false), (true, true), (false, false), (false, true)],
 		};
 		for (pp, kr) in variants {
-			out.push(FaultCase { faults: vec![f.clone()], previous_pair: pp, kp_reuse: kr, attempts: 1, nonce_on_get: false, hook_faults: vec![], file_hooks: false, retry_after: None, processing: false });
+			out.push(FaultCase { faults: vec![f.clone()], previous_pair: pp, kp_reuse: kr, attempts: 1, nonce_on_get: false, hook_faults: vec![], file_hooks: false, retry_after: None, processing: false, mixed_hooks: false });
 		}
 	}
 	out
